@@ -205,7 +205,9 @@ const phantom = `PhantomData<plonky2_field::goldilocks_field::GoldilocksField>`
 const num = `[0-9]+`
 const notTwo = `(?:[013-9]|[0-9][0-9]+)`
 
-func q(s string) string { return strings.NewReplacer("{", `\{`, "}", `\}`, "[", `\[`, "]", `\]`, "(", `\(`, ")", `\)`, "+", `\+`, "N", num).Replace(s) }
+func q(s string) string {
+	return strings.NewReplacer("{", `\{`, "}", `\}`, "[", `\[`, "]", `\]`, "(", `\(`, ")", `\)`, "+", `\+`, "N", num).Replace(s)
+}
 
 // supported gate type → identifier template(s) emitted by plonky2's Debug-derived Gate::id()
 var supportedIDs = map[string]string{
